@@ -156,6 +156,21 @@ func c24Exec(op string) string {
 			fmt.Fprintf(&sb, "%d", v)
 		}
 		return sb.String()
+	case "mp3": // mp3 <rate> <unit pts> <frames>: "spf=<samples per frame> <ms>…" received by a real RTMP client
+		fn, ok := verifutil.Funcs["protocols_rtmp_fromStreamMP3"].(func(int, int64, int) (int, []int64, error))
+		if !ok {
+			return "unknown-copy"
+		}
+		spf, got, err := fn(verifutil.Atoi(f[1]), verifutil.AtoI64(f[2]), verifutil.Atoi(f[3]))
+		if err != nil {
+			return "err " + strings.ReplaceAll(err.Error(), " ", "_")
+		}
+		var sb strings.Builder
+		fmt.Fprintf(&sb, "spf=%d", spf)
+		for _, v := range got {
+			fmt.Fprintf(&sb, " %d", v)
+		}
+		return sb.String()
 	case "mp": // mp <time scale> <start offset ns> <sample durations…>: duration returned by segmentFMP4MuxParts
 		fn, ok := verifutil.Funcs["playback_segmentFMP4MuxParts"].(func(int64, int64, []int64) (int64, error))
 		if !ok {
@@ -187,6 +202,11 @@ func c24Exec(op string) string {
 // inline conversions (round 2): durations that are whole milliseconds (where a float64 detour loses a unit),
 // around the uint32 limit of the mvhd field, arbitrary nanoseconds, negative, huge
 func c24GenInline(r *verifutil.Rand) []string {
+	if r.Chance(1, 5) { // round 5: MPEG-1/2 audio frames of one unit through the RTMP egress (loopback round trip)
+		rate := []int{44100, 44100, 22050, 48000, 32000}[r.Intn(5)]
+		pts := int64(r.Intn(90)) + int64(r.Intn(40000))*90 // every phase modulo one millisecond
+		return []string{"reset", fmt.Sprintf("mp3 %d %d %d", rate, pts, 2+r.Intn(9))}
+	}
 	switch r.Intn(4) {
 	case 0: // round 4: derived timestamps — AC-3 frames of one unit through the MPEG-TS egress
 		rate := []int{32000, 44100, 44100, 48000}[r.Intn(4)]
@@ -457,7 +477,7 @@ func c24Class(op, impl string) string {
 	if impl == "panic" {
 		return f[0] + "/panic-zero-divisor"
 	}
-	if f[0] == "wd" || f[0] == "rh" || f[0] == "ac3" || f[0] == "mp" {
+	if f[0] == "wd" || f[0] == "rh" || f[0] == "ac3" || f[0] == "mp" || f[0] == "mp3" {
 		if impl == "err" {
 			return f[0] + "/error"
 		}
